@@ -734,7 +734,7 @@ package pokerface
 //@             && p.game.gs.Status.CurrentRoundPot == old(p.game.gs.Status.CurrentRoundPot) + p.state.Wager - old(p.state.Wager)
 
 //@ func (*game).PayBlinds(g) (err)
-//@   props C13 C04 C06 C01
+//@   props C13 C04 C06 C01 C12
 //@   requires WAITINV(g)
 //@   modifies @OPS
 //@   allocs elems(string), elems(Player), settlement.Result, Action
@@ -747,7 +747,7 @@ package pokerface
 //@   -- the wager to match is the largest blind actually posted; the big blind is the minimum raise
 //@   ensures [C13] old(g.gs.Status.CurrentEvent) == "BlindsRequested" ==> TABLE(g)
 //@             && (g.gs.Status.CurrentWager > 0 ==> (exists j :: 0 <= j && j < len(g.gs.Players) && g.gs.Players[j].Wager == g.gs.Status.CurrentWager))
-//@   ensures [C13] old(g.gs.Status.CurrentEvent) == "BlindsRequested" && g.gs.Meta.Blind.BB > 0 ==> g.gs.Status.PreviousRaiseSize == g.gs.Meta.Blind.BB
+//@   ensures [C13 C12] old(g.gs.Status.CurrentEvent) == "BlindsRequested" && g.gs.Meta.Blind.BB > 0 ==> g.gs.Status.PreviousRaiseSize == g.gs.Meta.Blind.BB
 //@   loop 1 invariant forall j :: 0 <= j && j < len(g.gs.Players) && DIST(g.dealer.idx, j, len(g.gs.Players)) <= rangeindex ==>
 //@             g.gs.Players[j].Wager == min(old(DUE(g, g.gs.Players[j])), old(g.gs.Players[j].StackSize)) && CHIP(g.gs.Players[j])
 //@             && g.gs.Players[j].Pot == old(g.gs.Players[j].Pot)
